@@ -5,13 +5,16 @@ The oracle is written from the statement with `datetime` and `Fraction` only; it
 the Lean model.  Inputs are calendar days (ordinals), date-times in whole milliseconds since
 1900-01-01T00:00, integer and float serials, day offsets and plain numbers.
 
-Case kinds (every one has a model request):
+Case kinds (every one but arr and montext has a model request):
   day          one calendar day: serialize_date, parse_date of it, the serial of the next day
   serial       one integer serial: parse_date, serialize_date of it
   dt           one date-time (ms): serialize_date, parse_date of it, the serial one millisecond later
   parse        one float serial (num/den): parse_date, serialize_date of it
   cmp          two date-times under < = > <= >= <>
   cmpn         a plain number against a date-time (either side) under the six operators
+  arr          a date-time x against a list ns of day counts and the list ds of the dates x+n: x+ns, ns+x, x-ns, ds-x, x-ds,
+               judged element by element (oracle only)
+  montext      a whole day written as text with an English month name (5 formats) as operand of - + and DAYS (oracle only)
   add          date-time x and integer n: x+n, n+x, x-n
   sub          two date-times: x-y, DAYS(x,y)
   fn           DATEVALUE / N of a date-time given as a variable, as ISO text, as a whole-number serial
@@ -56,7 +59,15 @@ RULE = ('DAYS 1900-01-01..9999-12-31 (kind day: serialize_date, parse_date of th
         'around 1900-01-01 and 1 March 1900 in both orders, all six operators, also serials-follow-time.  NUMBER AGAINST '
         'DATE-TIME (cmpn): 300*S; a day 1900-03-01..9999-12-30 at j/8 of the day (exact doubles), a number out of {whole-day '
         'serial as int, as float, that +1, that -1, the exact serial, the exact serial + 1/8} on the left or on the right, '
-        'six operators.  ADD (add: x+n, n+x, x-n, integer n): 500*S in five equal streams (whole day with |n| <= 40000; '
+        'six operators.  DATE AGAINST ARRAY (arr, oracle only): 120*S; a date-time x at least 400 days inside '
+        '1900-03-01..9999-12-31 at 00:00 (half), 12:00 or 06:00, a list ns of 1..3 integers in -300..299 and the list ds of the '
+        'date-times x+n days, all three as variables: x+ns, ns+x, x-ns must each be a list of that length holding the dates n days '
+        'later / earlier, ds-x and x-ds lists of the differences n / -n - every element as in the scalar case (exact at '
+        'midnight, else less than half a millisecond / within 1e-9 day).  MONTH-NAME TEXT (montext, oracle only): 120*S; a whole '
+        'day 22000..48999 days after 1900-01-01 (1960..2034) written as the text t in one of 5 formats (22-JUN-2011, 22-JUNE-2011 - '
+        'the dashed forms in upper case -, June 22, 2011, 22 Jun 2011, Jun 22 2011), n '
+        'in 1..399 and y = that day - n days as variables: t-y = n, y-t = -n, DAYS(t,y) = n, t+n and t-n the dates n days later / '
+        'earlier, all exactly.  ADD (add: x+n, n+x, x-n, integer n): 500*S in five equal streams (whole day with |n| <= 40000; '
         'whole day with n out of -2 -1 0 1 2 7 28 29 30 31 365 366 -365 -366; pool date-time with |n| <= 40000; a day within '
         '400 days of 1 March 1900 or of 9999-12-31 with |n| <= 450; whole day with |n| <= 2958464) + 13 fixed at both ends of '
         'the range and at 28 Feb 2019 / 2020.  SUB (sub: x-y, DAYS(x,y)): 300*S (two whole days; two whole days at most 400 '
@@ -73,8 +84,8 @@ RULE = ('DAYS 1900-01-01..9999-12-31 (kind day: serialize_date, parse_date of th
         'while os.environ["TZ"] = that string + time.tzset() is in force (set and restored around every such case): each as '
         'dt, each neighbour pair of that list in both orders as cmp, the first 40 as fn and the whole days among those as day '
         '(S=1: 99 dt, 196 cmp, 40 fn, 10 day): same oracle, same model request.  '
-        'MODEL: every case has a request (date.serial / date.parse / c04.batch of the variable formulas with the dates as date '
-        'values), none is oracle-only; answers compared exactly for day, serial, whole-day dt, cmp, cmpn and for '
+        'MODEL: every case but arr and montext has a request (date.serial / date.parse / c04.batch of the variable formulas with '
+        'the dates as date values), those two kinds are oracle-only; answers compared exactly for day, serial, whole-day dt, cmp, cmpn and for '
         'add/sub/fn on whole days (dates to the microsecond); otherwise floats within 4 ulp (add/sub/fn also within '
         '1e-9*max(1,|value|)), dates within 2+|us|/2^49 microseconds; a model answer "no opinion" counts as a disagreement.  '
         'Sweep chunks: one more driver process per chunk answers date.serial and date.parse of the produced serial for every '
@@ -87,7 +98,7 @@ RULE = ('DAYS 1900-01-01..9999-12-31 (kind day: serialize_date, parse_date of th
         'whose result leaves 1900-03-01..9999-12-31.  Non-trivial = day other than 1900-01-01; serial (integer or float) >= '
         '61; date-time other than 1900-01-01T00:00; cmp of two different instants; add with date and date+n in '
         '1900-03-01..9999-12-31 and n != 0; sub of two different date-times from 1 March 1900; fn from 1 March 1900; every '
-        'cmpn; a sweep chunk counts by weight = (elements evaluated, the same without 1900-01-01, model lines).  distinct = '
+        'cmpn, arr and montext; a sweep chunk counts by weight = (elements evaluated, the same without 1900-01-01, model lines).  distinct = '
         'distinct case (kind, operands, tz).')
 TRUSTED = ['CPython datetime (timedelta arithmetic, total_seconds, rounding of timedelta(seconds=float) to microseconds) and '
            'IEEE double arithmetic: the model computes the same expressions in exact rationals; the differential sweep over '
@@ -99,7 +110,9 @@ TRUSTED = ['CPython datetime (timedelta arithmetic, total_seconds, rounding of t
            'os.environ["TZ"] + time.tzset() sets the process time zone (glibc POSIX rule, no tz database); the references of the '
            'oracle are naive timedelta/Fraction arithmetic and do not consult it; the model has no time zone',
            'dateutil.parser for DATEVALUE of ISO-8601 text (the model recognises YYYY-MM-DD[(T| )HH:MM[:SS]] only; the plugin '
-           'writes YYYY-MM-DD and YYYY-MM-DD HH:MM:SS)',
+           'writes YYYY-MM-DD and YYYY-MM-DD HH:MM:SS); the reading of text with an English month name (montext: strftime %b / %B, '
+           '5 formats) is dateutil\'s too and has no model counterpart: those cases and the array cases (arr) are '
+           'judged by the oracle only',
            'fx.to_wire gives the model the value handed to Parser.set_variable (datetime as microseconds since 1900-01-01, float '
            'as its exact fraction, text by code points); the `tz` key of a case is not part of the model request',
            'the sweep mechanism: multiprocessing fork pool (sequential fallback), a separate run of the driver executable per '
@@ -134,7 +147,12 @@ ASSUMPTIONS = ['"to the millisecond": parse_date(serialize_date(d)) is less than
                'the same for DATEVALUE of the ISO text of d and of its whole-number serial; DAYS(e,s) = the days between, '
                'both from 1 March 1900',
                'a naive datetime means the same serial whatever the process time zone is: under a daylight-saving zone, also '
-               'inside its skipped and its repeated hour, every demand above holds unchanged']
+               'inside its skipped and its repeated hour, every demand above holds unchanged',
+               'a date against an ARRAY (a list of day counts, a list of dates) under + and - works element by element and gives '
+               'a list of the same length, each element being what the scalar clause demands (date n days later / earlier, days '
+               'between); a text that spells a day with an English month name (22-JUN-2011, June 22, 2011, 22 Jun 2011 ...) is that '
+               'date as an operand of + and - and of DAYS: t-y and DAYS(t,y) are the days between, t+n / t-n the date n days '
+               'later / earlier (years 1960..2034 only, which no two-digit reading can confuse)']
 EXHAUSTIVE = {'quick': False, 'thorough': True}
 
 DT = datetime.datetime
